@@ -8,6 +8,7 @@ import (
 	"context"
 	"encoding/json"
 	"fmt"
+	"hash/fnv"
 	"sort"
 	"time"
 
@@ -28,14 +29,44 @@ import (
 // T0 is tick 0 of the specification; one tick is one day.
 var T0 = time.Date(2030, 1, 1, 0, 0, 0, 0, time.UTC)
 
-func TickTime(t int64) time.Time { return T0.Add(time.Duration(t) * 24 * time.Hour) }
+// TickUnit is the duration of one tick in the behaviour being replayed.  The module compares times only by
+// order, except for the extension period (whole days): a behaviour in which no auction can be extended may
+// therefore be replayed on a sub-second grid (Init field "tickMs"), where release and end times that differ
+// by a tick still fall into the same second.
+var TickUnit = 24 * time.Hour
+
+func TickTime(t int64) time.Time { return T0.Add(time.Duration(t) * TickUnit) }
 
 func TimeTick(t time.Time) int64 {
 	d := t.Sub(T0)
-	if d%(24*time.Hour) != 0 {
+	if d%TickUnit != 0 {
 		return -999999
 	}
-	return int64(d / (24 * time.Hour))
+	return int64(d / TickUnit)
+}
+
+// SetTickUnit chooses the tick unit of a behaviour: the one its Init line asks for, else 250 ms for every
+// third behaviour (by content hash, so that replicas and adapters agree) without extension rounds, else a day.
+func SetTickUnit(acts []Action, raws []map[string]any, bz []byte) {
+	TickUnit = 24 * time.Hour
+	if len(acts) == 0 {
+		return
+	}
+	if acts[0].TickMs > 0 {
+		TickUnit = time.Duration(acts[0].TickMs) * time.Millisecond
+		return
+	}
+	for _, a := range acts {
+		if a.A == "CreateBatch" && a.MaxExt > 0 {
+			return
+		}
+	}
+	h := fnv.New32a()
+	h.Write(bz)
+	if h.Sum32()%3 == 0 {
+		TickUnit = 250 * time.Millisecond
+		raws[0]["tickMs"] = 250
+	}
 }
 
 var denomOut = map[string]string{"dA": "denoma", "dB": "denomb", "dF": "denomf"}
@@ -136,6 +167,7 @@ type Action struct {
 	Bal0      map[string]map[string]int64 `json:"bal0,omitempty"`
 	Params    *ParamsJ                    `json:"params,omitempty"`
 	Listeners int                         `json:"listeners,omitempty"`
+	TickMs    int64                       `json:"tickMs,omitempty"`
 	// messages
 	By        string   `json:"by,omitempty"`
 	Price     int64    `json:"price,omitempty"`
